@@ -41,7 +41,7 @@ class IdentityLinearOperator(ConstantDiagLinearOperator):
         self.diag_shape = diag_shape
         self._batch_shape = batch_shape
         self._dtype = dtype
-        self._device = device
+        self._device = one.device  # (never None: cat() and friends compare devices)
 
     @property
     def batch_shape(self) -> torch.Size:
